@@ -19,10 +19,15 @@ def bfields(h, bv):
 def TagsObj(h, tv):
   """tv is the defaultdict(set) holding the tag sets."""
   k = z3.Const('to_k', Val)
+  k2 = z3.Const('to_k2', Val)
   r = ref(tv)
   return z3.And(isref(h, tv, 'defaultdict'), z3.Not(cls_in(h.cls(r), 'History')),
                 FA([k], z3.Implies(h.has(r, k), isref(h, h.dget(r, k), 'set')),
-                   patterns=[h.has(r, k)]))
+                   patterns=[h.has(r, k)]),
+                # every argument owns its tag set: no two keys share a set object
+                FA([k, k2], z3.Implies(z3.And(h.has(r, k), h.has(r, k2), k != k2),
+                                       h.dget(r, k) != h.dget(r, k2)),
+                   patterns=[z3.MultiPattern(h.dget(r, k), h.dget(r, k2))]))
 
 
 def BFields(h, bv):
